@@ -64,15 +64,15 @@ Fixpoint tex_get (k : bytes) (m : list (bytes * TexCommon.texture)) : option Tex
 
 (* ------------------------------------------------------------------ parsers and serializers *)
 Definition parse_bin (e : endian) (b : bytes) : outcome BinArchive.archive := BinFormat.from_bytes e b.
-Definition ser_bin (mc : mode) (a : BinArchive.archive) : outcome bytes := BinFormat.serialize mc a.
+Definition ser_bin (kf : BinFormat.name_key) (mc : mode) (a : BinArchive.archive) : outcome bytes := BinFormat.serialize_k kf mc a.
 Definition parse_text (t : tfmt) (e : endian) (b : bytes) : outcome text_archive :=
   match TextFormat.from_bytes (tformat_of t) e b with
   | Ok m => Ok (mkTA (tformat_of t) e m)
   | Err x => Err x
   | Panic k => Panic k
   end.
-Definition ser_text (mc : mode) (a : text_archive) : outcome bytes :=
-  TextFormat.serialize mc (ta_fmt a) (ta_endian a) (ta_map a).
+Definition ser_text (kf : BinFormat.name_key) (mc : mode) (a : text_archive) : outcome bytes :=
+  TextFormat.serialize kf mc (ta_fmt a) (ta_endian a) (ta_map a).
 Definition parse_arc (md : mode) (b : bytes) : outcome files := Arc.arc_from_bytes md b.
 Definition parse_fe9_arc (md : mode) (b : bytes) : outcome files := Pack.parse md b.
 
@@ -109,10 +109,10 @@ Definition read_bch_textures (md : mode) := read_textures md 1.
 Definition read_ctpk_textures (md : mode) := read_textures md 2.
 Definition read_cgfx_textures (md : mode) := read_textures md 3.
 
-Definition write_archive (mc : mode) (S : fsys) (p : str) (a : BinArchive.archive) (loc : bool) : fsys * fres unit :=
-  fs_write_archive (lz_compress mc) BinArchive.archive (ser_bin mc) S p a loc.
-Definition write_text_archive (mc : mode) (S : fsys) (p : str) (a : text_archive) (loc : bool) : fsys * fres unit :=
-  fs_write_text_archive (lz_compress mc) text_archive (ser_text mc) S p a loc.
+Definition write_archive (kf : BinFormat.name_key) (mc : mode) (S : fsys) (p : str) (a : BinArchive.archive) (loc : bool) : fsys * fres unit :=
+  fs_write_archive (lz_compress mc) BinArchive.archive (ser_bin kf mc) S p a loc.
+Definition write_text_archive (kf : BinFormat.name_key) (mc : mode) (S : fsys) (p : str) (a : text_archive) (loc : bool) : fsys * fres unit :=
+  fs_write_text_archive (lz_compress mc) text_archive (ser_text kf mc) S p a loc.
 
 (* one typed call of a history (the correspondence kind `fstyped` runs these) *)
 Inductive tcall :=
@@ -123,7 +123,7 @@ Inductive tcall :=
 Inductive tobs :=
 | OBytes (r : fres bytes) | OUnit (r : fres unit) | OArchive (r : fres BinArchive.archive) | OText (r : fres text_archive)
 | OFiles (r : fres files) | OTextures (r : fres textures).
-Definition typed_step (mc md : mode) (S : fsys) (o : tcall) : fsys * tobs :=
+Definition typed_step (kf : BinFormat.name_key) (mc md : mode) (S : fsys) (o : tcall) : fsys * tobs :=
   match o with
   | TRead p loc => (S, OBytes (read_file md S p loc))
   | TWrite p b loc => let '(S', r) := write_file mc S p b loc in (S', OUnit r)
@@ -132,8 +132,8 @@ Definition typed_step (mc md : mode) (S : fsys) (o : tcall) : fsys * tobs :=
   | TReadArc p loc => (S, OFiles (read_arc md S p loc))
   | TReadFe9Arc p loc => (S, OFiles (read_fe9_arc md S p loc))
   | TReadTextures k p loc => (S, OTextures (read_textures md k S p loc))
-  | TWriteArchive p a loc => let '(S', r) := write_archive mc S p a loc in (S', OUnit r)
-  | TWriteText p a loc => let '(S', r) := write_text_archive mc S p a loc in (S', OUnit r)
+  | TWriteArchive p a loc => let '(S', r) := write_archive kf mc S p a loc in (S', OUnit r)
+  | TWriteText p a loc => let '(S', r) := write_text_archive kf mc S p a loc in (S', OUnit r)
   end.
-Fixpoint typed_run (mc md : mode) (S : fsys) (os : list tcall) : fsys :=
-  match os with [] => S | o :: r => typed_run mc md (fst (typed_step mc md S o)) r end.
+Fixpoint typed_run (kf : BinFormat.name_key) (mc md : mode) (S : fsys) (os : list tcall) : fsys :=
+  match os with [] => S | o :: r => typed_run kf mc md (fst (typed_step kf mc md S o)) r end.
